@@ -69,5 +69,36 @@ func scripted(seed int64) []*hist {
 		}
 		out = append(out, h)
 	}
+	// -4: the completing deposit lands just before / exactly at / just after the deposit deadline
+	{
+		h := newHist(seed, -4, "plain")
+		min := h.minFor(false)
+		part := new(big.Int).Quo(min, big.NewInt(4))
+		for i, k := range []int64{6, 5, 4} {
+			h.opSubmitKind("text", int64(10+i), part, false)
+			id := uint64(i + 1)
+			h.deadlineDeposit(id, k, int64(13+i%3), true)
+			h.opVote(id, 0, [][2]string{{"1", e18.String()}}, false)
+		}
+		for k := 0; k < 3 && len(h.openIDs(0)) > 0 && !h.halted; k++ {
+			h.opEndBlock(time.Duration(h.params.VotingPeriod.Seconds()+60) * time.Second)
+		}
+		out = append(out, h)
+	}
+	// -5: expedited proposals fail their first tally and are converted; one is cancelled by its
+	// proposer in the next block, one runs on to the regular end
+	{
+		h := newHist(seed, -5, "plain")
+		h.opSubmitKind("text", 10, h.minFor(true), true)
+		h.opSubmitKind("xparams", 11, h.minFor(true), true)
+		h.expeditedEnd(1, true, true)
+		if !h.halted {
+			h.opEndBlock(lib.BlockStep)
+		}
+		for k := 0; k < 3 && len(h.openIDs(0)) > 0 && !h.halted; k++ {
+			h.opEndBlock(time.Duration(h.params.VotingPeriod.Seconds()/2+60) * time.Second)
+		}
+		out = append(out, h)
+	}
 	return out
 }
